@@ -15,6 +15,8 @@ struct Tr<'u> {
     opaque: Vec<(String, String, Ty)>,
     /// the current request's `ignore_assign`
     req_ignore_assign: Vec<String>,
+    /// effect_list: which argument of the recorded call is the value (`of: {"arg": i}`; None: the call's only argument)
+    effect_arg: Option<usize>,
 }
 
 fn norm(ts: impl ToTokens) -> String {
